@@ -261,7 +261,7 @@ PROPS["C01"] = {
                   "are never touched by a later walk; a generic struct is described by the underlying node of its origin whichever use is "
                   "seen first, its fields of parameter type refer to TypeParam objects; declarations (functions, variables, constants) are "
                   "registered as DeclarationOf objects over the object of their Go type with the constant's value, and a scanned package's "
-                  "record carries its name and imports (Lemmas/WalkSide.lean). Lemmas/WalkName.lean: the object a lookup of name n "
+                  "record carries its name and imports, in v1 and in v2 where the visits of the imports run in between (package_recorded, package_recorded_v2; Lemmas/WalkSide.lean). Lemmas/WalkName.lean: the object a lookup of name n "
                   "returns, if it was filled, was filled from a node that walkType files under n - the node go/types prints as n, the "
                   "underlying node of the defined type printed as n (flattening rule), or the signature of the method printed as n - so "
                   "what the universe says under a name is what the type checker says about the type of that name (lookup_faithful_v1/v2, "
@@ -334,7 +334,8 @@ PROPS["C11"] = dict(PROPS["C01"], lean=["Gengo.Props.C11"],
                "DeclarationOf object over the object of its Go type (constants with their values) - and stays so through everything "
                "walked later (declaration objects are never shared between index entries) - and the package's record carries its name "
                "and direct imports; in v2, where the scan is interleaved with the visits of the imports, the package is complete (types and "
-               "declarations) when addPkgToUniverse returns (requested_package_complete_v2), and a package once complete stays complete "
+               "declarations) when addPkgToUniverse returns (requested_package_complete_v2; its record with name and imports survives the "
+               "visits of all imports that run between scan and record: package_recorded_v2 of C01), and a package once complete stays complete "
                "through everything any loader does afterwards (completeFor_keeps). PARTIAL: receivers are outside the cross-universe statement (a method signature prints "
                "like the plain function type); that the common part contains everything reachable from the packages requested in both "
                "is compared, not proved. v1 Builder: findTypesIn leaves the state untouched for a package that "
